@@ -53,6 +53,7 @@ def run_suites(ctx, model_ok, deep, plan):
     orc = K.Oracle(K.build_oracle(ctx))
     tier = "thorough" if (ctx.tier == "thorough" or deep) else "quick"
     pool = S.KeyPool(ctx, orc, tier)
+    S.falsify_jwk_import.oracle = orc
     try:
         for name, builder, falsifier, rule, exhaustive in plan:
             if name.startswith("alg-matrix"):
